@@ -257,6 +257,9 @@ pub mod oxidd_core {
     pub use super::VarNo;
     pub use super::Node;
 }
+/// `Function::as_edge(manager)` / `Function::from_edge(manager, e)`: a function handle is modelled by its root edge
+pub trait AsEdgeExt: Sized { fn as_edge<M>(&self, manager: &M) -> (r: &Self) ensures r == self { self } }
+impl<E: Edge> AsEdgeExt for E {}
 pub struct EdgeDropGuard<'a, M: Manager> { pub manager: &'a M, pub edge: M::Edge }
 impl<'a, M: Manager> EdgeDropGuard<'a, M> {
     pub fn new(manager: &'a M, edge: M::Edge) -> (r: Self) ensures r.edge.view() == edge.view() { EdgeDropGuard { manager, edge } }
@@ -554,6 +557,87 @@ fn tvl_u<M>(manager: &M) -> (res: M::Edge)
 where M: Manager<Terminal = TDDTerminal> + HasApplyCache<M, TDDOp>, M::InnerNode: HasLevel,
 //@spec
     ensures res.view() == Tree::Leaf(1),
+//@end
+// ---------- default methods of TVLFunction in oxidd-core/src/function.rs (user-facing API; rule R15) ----------
+//@fn file=crates/oxidd-core/src/function.rs path=trait:TVLFunction/fn:and rename=api_and selfcall=Self::> withmgr=this props=C11
+//@header
+fn api_and<M>(manager: &M, this: &M::Edge, rhs: &M::Edge) -> (res: AllocResult<M::Edge>)
+where M: Manager<Terminal = TDDTerminal> + HasApplyCache<M, TDDOp>, M::InnerNode: HasLevel,
+//@spec
+    requires edge_ok::<M::Edge>(), ok(this.view(), manager.num_levels_spec()), ok(rhs.view(), manager.num_levels_spec()),
+    ensures res is Ok ==> bin_post(TDDOp::And as u8, this.view(), rhs.view(), manager.num_levels_spec(), res->Ok_0.view()),
+//@end
+//@fn file=crates/oxidd-core/src/function.rs path=trait:TVLFunction/fn:or rename=api_or selfcall=Self::> withmgr=this props=C11
+//@header
+fn api_or<M>(manager: &M, this: &M::Edge, rhs: &M::Edge) -> (res: AllocResult<M::Edge>)
+where M: Manager<Terminal = TDDTerminal> + HasApplyCache<M, TDDOp>, M::InnerNode: HasLevel,
+//@spec
+    requires edge_ok::<M::Edge>(), ok(this.view(), manager.num_levels_spec()), ok(rhs.view(), manager.num_levels_spec()),
+    ensures res is Ok ==> bin_post(TDDOp::Or as u8, this.view(), rhs.view(), manager.num_levels_spec(), res->Ok_0.view()),
+//@end
+//@fn file=crates/oxidd-core/src/function.rs path=trait:TVLFunction/fn:nand rename=api_nand selfcall=Self::> withmgr=this props=C11
+//@header
+fn api_nand<M>(manager: &M, this: &M::Edge, rhs: &M::Edge) -> (res: AllocResult<M::Edge>)
+where M: Manager<Terminal = TDDTerminal> + HasApplyCache<M, TDDOp>, M::InnerNode: HasLevel,
+//@spec
+    requires edge_ok::<M::Edge>(), ok(this.view(), manager.num_levels_spec()), ok(rhs.view(), manager.num_levels_spec()),
+    ensures res is Ok ==> bin_post(TDDOp::Nand as u8, this.view(), rhs.view(), manager.num_levels_spec(), res->Ok_0.view()),
+//@end
+//@fn file=crates/oxidd-core/src/function.rs path=trait:TVLFunction/fn:nor rename=api_nor selfcall=Self::> withmgr=this props=C11
+//@header
+fn api_nor<M>(manager: &M, this: &M::Edge, rhs: &M::Edge) -> (res: AllocResult<M::Edge>)
+where M: Manager<Terminal = TDDTerminal> + HasApplyCache<M, TDDOp>, M::InnerNode: HasLevel,
+//@spec
+    requires edge_ok::<M::Edge>(), ok(this.view(), manager.num_levels_spec()), ok(rhs.view(), manager.num_levels_spec()),
+    ensures res is Ok ==> bin_post(TDDOp::Nor as u8, this.view(), rhs.view(), manager.num_levels_spec(), res->Ok_0.view()),
+//@end
+//@fn file=crates/oxidd-core/src/function.rs path=trait:TVLFunction/fn:xor rename=api_xor selfcall=Self::> withmgr=this props=C11
+//@header
+fn api_xor<M>(manager: &M, this: &M::Edge, rhs: &M::Edge) -> (res: AllocResult<M::Edge>)
+where M: Manager<Terminal = TDDTerminal> + HasApplyCache<M, TDDOp>, M::InnerNode: HasLevel,
+//@spec
+    requires edge_ok::<M::Edge>(), ok(this.view(), manager.num_levels_spec()), ok(rhs.view(), manager.num_levels_spec()),
+    ensures res is Ok ==> bin_post(TDDOp::Xor as u8, this.view(), rhs.view(), manager.num_levels_spec(), res->Ok_0.view()),
+//@end
+//@fn file=crates/oxidd-core/src/function.rs path=trait:TVLFunction/fn:equiv rename=api_equiv selfcall=Self::> withmgr=this props=C11
+//@header
+fn api_equiv<M>(manager: &M, this: &M::Edge, rhs: &M::Edge) -> (res: AllocResult<M::Edge>)
+where M: Manager<Terminal = TDDTerminal> + HasApplyCache<M, TDDOp>, M::InnerNode: HasLevel,
+//@spec
+    requires edge_ok::<M::Edge>(), ok(this.view(), manager.num_levels_spec()), ok(rhs.view(), manager.num_levels_spec()),
+    ensures res is Ok ==> bin_post(TDDOp::Equiv as u8, this.view(), rhs.view(), manager.num_levels_spec(), res->Ok_0.view()),
+//@end
+//@fn file=crates/oxidd-core/src/function.rs path=trait:TVLFunction/fn:imp rename=api_imp selfcall=Self::> withmgr=this props=C11
+//@header
+fn api_imp<M>(manager: &M, this: &M::Edge, rhs: &M::Edge) -> (res: AllocResult<M::Edge>)
+where M: Manager<Terminal = TDDTerminal> + HasApplyCache<M, TDDOp>, M::InnerNode: HasLevel,
+//@spec
+    requires edge_ok::<M::Edge>(), ok(this.view(), manager.num_levels_spec()), ok(rhs.view(), manager.num_levels_spec()),
+    ensures res is Ok ==> bin_post(TDDOp::Imp as u8, this.view(), rhs.view(), manager.num_levels_spec(), res->Ok_0.view()),
+//@end
+//@fn file=crates/oxidd-core/src/function.rs path=trait:TVLFunction/fn:imp_strict rename=api_imp_strict selfcall=Self::> withmgr=this props=C11
+//@header
+fn api_imp_strict<M>(manager: &M, this: &M::Edge, rhs: &M::Edge) -> (res: AllocResult<M::Edge>)
+where M: Manager<Terminal = TDDTerminal> + HasApplyCache<M, TDDOp>, M::InnerNode: HasLevel,
+//@spec
+    requires edge_ok::<M::Edge>(), ok(this.view(), manager.num_levels_spec()), ok(rhs.view(), manager.num_levels_spec()),
+    ensures res is Ok ==> bin_post(TDDOp::ImpStrict as u8, this.view(), rhs.view(), manager.num_levels_spec(), res->Ok_0.view()),
+//@end
+//@fn file=crates/oxidd-core/src/function.rs path=trait:TVLFunction/fn:not rename=api_not selfcall=Self::> withmgr=this props=C11
+//@header
+fn api_not<M>(manager: &M, this: &M::Edge) -> (res: AllocResult<M::Edge>)
+where M: Manager<Terminal = TDDTerminal> + HasApplyCache<M, TDDOp>, M::InnerNode: HasLevel,
+//@spec
+    requires edge_ok::<M::Edge>(), ok(this.view(), manager.num_levels_spec()),
+    ensures res is Ok ==> not_post(this.view(), manager.num_levels_spec(), res->Ok_0.view()),
+//@end
+//@fn file=crates/oxidd-core/src/function.rs path=trait:TVLFunction/fn:ite rename=api_ite selfcall=Self::> withmgr=this props=C11
+//@header
+fn api_ite<M>(manager: &M, this: &M::Edge, then_case: &M::Edge, else_case: &M::Edge) -> (res: AllocResult<M::Edge>)
+where M: Manager<Terminal = TDDTerminal> + HasApplyCache<M, TDDOp>, M::InnerNode: HasLevel,
+//@spec
+    requires edge_ok::<M::Edge>(), ok(this.view(), manager.num_levels_spec()), ok(then_case.view(), manager.num_levels_spec()), ok(else_case.view(), manager.num_levels_spec()),
+    ensures res is Ok ==> ite_post(this.view(), then_case.view(), else_case.view(), manager.num_levels_spec(), res->Ok_0.view()),
 //@end
 } // mod apply_rec
 } // mod rules
